@@ -425,7 +425,18 @@ fn write_op(cs: &mut CS, ex: &Exec, data: &[u8], w: &mut WSide, op: WOp, limit: 
     let len = (op.len as usize).min(rem).min(limit);
     let buf = &data[w.pos..w.pos + len];
     let mut cx = ex.cx();
-    match Pin::new(&mut *cs).poll_write(&mut cx, buf) {
+    // every fourth-or-so write goes through the vectored entry point (two slices): whatever path the
+    // bytes take, what is reported as written must be what reaches the transport encrypted
+    let vectored = op.len % 4 == 3 && len >= 2;
+    let polled = if vectored {
+        let h = len / 2;
+        let bufs = [std::io::IoSlice::new(&buf[..h]), std::io::IoSlice::new(&buf[h..])];
+        out.count("caller poll_write_vectored calls", 1);
+        Pin::new(&mut *cs).poll_write_vectored(&mut cx, &bufs)
+    } else {
+        Pin::new(&mut *cs).poll_write(&mut cx, buf)
+    };
+    match polled {
         Poll::Ready(Ok(n)) => {
             if n > len {
                 out.find(
